@@ -4,7 +4,7 @@
      thread/workerpool.cpp  62-72   ~impl: one empty delegate per registered vCPU, join the owned OS threads,
                                     wait until `vcpus` is empty, destroy the ring
                             74-83   enqueue = ring->send<PhotonPause|ThreadPause>
-                            84-93   do_call: Awaiter + lambda IN THE CALLER'S FRAME, enqueue, aop.suspend()
+                            84-96   do_call: Awaiter + lambda IN THE CALLER'S FRAME, enqueue, `while (aop.suspend() != 0) {}`
                             105-115 add_vcpu / remove_vcpu
                             122-148 main_loop (three thread modes)
                             150-156 delegate_helper: copy *arg, run, *count -= 1
@@ -45,8 +45,10 @@
      g_badcount `*tasklb.count -= 1` hit a worker that already left main_loop (or count = 0)
      g_ringuaf  the ring was popped after ~impl destroyed it.
    User contract modelled as guards: no submission and no join_current_vcpu_into_workpool once the
-   destructor has started (LSubmit / LRegister need DIdle).  `s_intr` = the environment may interrupt a
-   caller blocked in call() with ESHUTDOWN (LIntr) — see call_returns_after_finish_refuted. *)
+   destructor has started (LSubmit / LRegister need DIdle).  The environment may at any time interrupt a
+   caller blocked in call() with ESHUTDOWN / ETIMEDOUT (LIntr).  `s_intr = false` is the code of the
+   working tree (fix f4b1a02: do_call waits again); `s_intr = true` is the code BEFORE that fix (do_call
+   ignored the result of aop.suspend()) — kept for call_returns_after_finish_prefix_refuted (finding F37). *)
 From Coq Require Import List Bool Arith.
 Import ListNotations.
 
@@ -100,7 +102,7 @@ Record state : Type := mkState {
 Inductive label : Type :=
 | LSubmit (c : bool)                 (* enqueue accepted (push succeeded) *)
 | LReturn (i : nat)                  (* aop.suspend() satisfied: call() returns *)
-| LIntr (i : nat)                    (* aop.suspend() returns -1/ESHUTDOWN: call() returns *)
+| LIntr (i : nat)                    (* aop.suspend() returns -1/ESHUTDOWN|ETIMEDOUT *)
 | LRegister (w : nat)                (* add_vcpu of a joining vCPU *)
 | LRecv (w : nat)
 | LDispatch (w : nat)
@@ -206,14 +208,16 @@ Definition step (s : state) (l : label) : option state :=
           else None
       | _ => None
       end
-  | LReturn i =>                       (* cpp 92: aop.suspend() returns 0 after the signal *)
+  | LReturn i =>                       (* cpp 95: aop.suspend() returns 0 after the signal *)
       match gett s i with
       | Some t => if t_call t && t_sig t && negb (t_ret t) then Some (modt s i set_ret) else None
       | None => None
       end
-  | LIntr i =>                         (* thread.h 520-526: wait() gives up on ESHUTDOWN; cpp 92 ignores the result *)
+  | LIntr i =>                         (* the caller blocked in call() is interrupted with ESHUTDOWN / ETIMEDOUT: semaphore::wait
+                                          gives up (thread.h 520-526).  Fixed code (cpp 92-95 `while (aop.suspend() != 0) {}`): the
+                                          caller waits again, nothing changes.  Pre-fix code (`s_intr`): call() returned *)
       match gett s i with
-      | Some t => if s_intr s && t_call t && negb (t_ret t) then Some (modt s i set_ret) else None
+      | Some t => if t_call t && negb (t_ret t) then Some (if s_intr s then modt s i set_ret else s) else None
       | None => None
       end
   | LRegister w =>                     (* cpp 123 add_vcpu of join_current_vcpu_into_workpool *)
